@@ -93,4 +93,10 @@ CLAIMED = {
   "text": "For all payload lengths at once and every role/length-form/FIN/compression/opcode combination: the bytes handed to the transport are exactly the RFC 6455 frame header (correct length form and length value, mask bit and key iff client) followed by the payload; invalid control frames never reach the transport; fragment sequencing state is reset as required; accept key and handshake tests present. Payload integrity through the buffering/compression layers is not decided.",
   "note": "maskBytes (unsafe word-wise XOR) and net.Conn are contracts; layout transcribed from RFC 6455 5.2.",
  },
+
+ "C14": {
+  "technique": "abstract interpretation of advanceFrame over the complete header alphabet (6144 variants: role x opcode x FIN x reserved-bit class x mask x open message x deflate x length form incl. top-bit-set 64-bit lengths) against a three-valued RFC 6455 decision table; guard/dominator and table rules for limit accounting, error latching, close codes and ping echo",
+  "text": "Exhaustive over the abstract header alphabet with symbolic lengths/payloads: every combination is refused or accepted as RFC 6455 section 5 requires (first-violated-rule table, unspecified where the RFC/7692 interplay is open); limit decision = accumulated+frame length vs limit with no wrap-around; protocol errors send Close 1002 and are latched by both callers; close codes/UTF-8/ping echo checked structurally. Long frame sequences are not enumerated.",
+  "note": "Conn.read, the transport and masking are contracts; decision table transcribed from RFC 6455 section 5.",
+ },
 }
